@@ -24,6 +24,10 @@
 //	                                                (after=false) or right after it, i.e. between db.Put and the post of
 //	                                                the vote (after=true). The call then returns Crashed=true and the
 //	                                                driver has already restarted the Voter on the same database.
+//	d.RemoveMarkedBlock(hash)                       Voter.removeMarkedBlock (what Server.commit calls when the insert of a committed block fails)
+//	d.StartVoteQuery(round, index, chTh, houseTh)   Voter.existHashOverVotesThreshold (read-only; Proposal's "start voting early" test)
+//	d.WriteForeignRecord(kind, idx, round, index, mode)   stores, under this node's key, a record this node did not write
+//	                                                (0 = signed by another key, 1 = garbage signature, 2 = garbage RLP): NewVoteDB must ignore it
 //	d.Records()                                     the five persisted vote records (prevote, precommit, certificate, next1, next2)
 //	d.State()                                       the Voter's latches and the VoteDB's in-memory (round, index, marks)
 //	(*VoteDB).VerifState()                          the same for a bare VoteDB
@@ -103,6 +107,9 @@ type VerifEnv struct {
 	Version params.YouVersion
 	// CertParamsErr makes CertificateParams fail (a certificate vote then cannot be signed).
 	CertParamsErr bool
+	// EnableBls makes CurrentCaravelParams report BLS as enabled: own votes go through VoteBLSMgr.SignVote. The look-back
+	// validator set of the driver is empty, so the node is "not in validators set" and every own vote is refused there.
+	EnableBls bool
 }
 
 // VerifEvent is one event posted on the mux by a call.
@@ -199,7 +206,7 @@ type verifParams struct{ d *VerifVoter }
 
 func (f verifParams) CurrentCaravelParams() *params.CaravelParams {
 	yp := params.Versions[params.YouCurrentVersion]
-	yp.EnableBls = false
+	yp.EnableBls = f.d.Env.EnableBls
 	return &yp.CaravelParams
 }
 func (f verifParams) CertificateParams(round *big.Int) (*params.CaravelParams, error) {
@@ -415,6 +422,39 @@ func (d *VerifVoter) Vote(m VerifVoteMsg) VerifStep {
 	}
 	st.Invalid = invalid
 	return st
+}
+
+// RemoveMarkedBlock calls Voter.removeMarkedBlock.
+func (d *VerifVoter) RemoveMarkedBlock(h common.Hash) VerifStep {
+	return d.run(func() { d.V.removeMarkedBlock(h) })
+}
+
+// StartVoteQuery calls Voter.existHashOverVotesThreshold.
+func (d *VerifVoter) StartVoteQuery(round *big.Int, roundIndex uint32, chamberTh, houseTh uint32) bool {
+	return d.V.existHashOverVotesThreshold(round, roundIndex, chamberTh, houseTh)
+}
+
+// WriteForeignRecord stores a vote record this node did not write under one of its own record keys.
+func (d *VerifVoter) WriteForeignRecord(kind VoteType, idx uint8, round *big.Int, roundIndex uint32, mode int) {
+	key := AddrTypeKey(d.Addr, kind, idx)
+	if mode == 2 {
+		d.DB.Database.Put(key, []byte{0xc3, 0x01})
+		return
+	}
+	item := &VoteItem{VoteType: kind, Round: round, RoundIndex: roundIndex, Addr: d.Addr, Signature: []byte{1, 2, 3}}
+	if mode == 0 {
+		other, err := crypto.ToECDSA(crypto.Keccak256([]byte("verif-foreign-record-key")))
+		if err != nil {
+			panic(err)
+		}
+		payload := append(round.Bytes(), append(uint32ToBytes(roundIndex), int8ToBytes(uint8(kind))...)...)
+		item.Signature, _ = Sign(other, payload)
+	}
+	data, err := rlp.EncodeToBytes(item)
+	if err != nil {
+		panic(err)
+	}
+	d.DB.Database.Put(key, data)
 }
 
 // Records reads the five persisted vote records of this validator.
